@@ -7,7 +7,7 @@ import OV.Drivers.Loop
 * `cinfo := tok dtype shape ints isZero` (`tok = !F` in an ORA entry: evaluation failed)
 * `shape := ? | - | d,d,…` with `d := <int> | s:<name> | u`;  `ints := ? | - | i,i,…`
 * `graph := G <n> in* <n> (name tok)* <n> node* <n> out*`
-* `node := N op dom <n> (name|-)* <n> out* <n> attr* <n> (key graph)*`, `attr := k=i:<int> | k=is:<ints> | k=t:<tok> | k=o:<id>`
+* `node := N op dom <n> (name|-)* <n> out* <n> attr* <n> (key graph)*`, `attr := k=i:<int> | k=is:<ints> | k=t:<tok> | k=o:<id> | k=r:<ref>`
 * the empty string (default domain, skipped optional output) is written `~`.
 
 Answer: `OK mod=<0|1> err=<-|msg> NEED <k> key* HIST <k> h* <graph>`.
@@ -96,6 +96,7 @@ def parseAttr (s : String) : Option (String × Attr) :=
     else if v.startsWith "is:" then (parseIntsList (v.drop 3).toString).map fun l => (k, Attr.ints l)
     else if v.startsWith "t:" then some (k, Attr.tensor (v.drop 2).toString)
     else if v.startsWith "o:" then some (k, Attr.opaque (v.drop 2).toString)
+    else if v.startsWith "r:" then some (k, Attr.ref (v.drop 2).toString)
     else none
   | [] => none
 
